@@ -128,7 +128,7 @@ func GenWordVal() *rapid.Generator[*Val] {
 			// escaped words with awkward endings: escaped whitespace, escaped backslash
 			if rapid.IntRange(0, 3).Draw(t, "sq") == 0 {
 				// single-quoted phrases keep their quotes (pinned by the repository's tests)
-				return RawWord(rapid.SampledFrom([]string{"'s t'", "'x'", "'red apple'", "'a*'"}).Draw(t, "sqw"))
+				return RawWord(rapid.SampledFrom([]string{"'s t'", "'x'", "'red apple'", "'a*'", `'"b'`, `'say "hi" now'`, `'"'`}).Draw(t, "sqw"))
 			}
 			return EscapedWord(rapid.SampledFrom([]string{"trail ", "dir\\", "c:\\", "tab\t", "a b", "x\\y", "end\n"}).Draw(t, "ew"))
 		}
